@@ -49,6 +49,8 @@ class E1:
         self._orig_step = self.env.step
         self.env.step = self._step
         self.run_count = 0
+        self.stepped = []
+        self.max_started_end = float('-inf')
 
     # ------------------------------------------------------------------------------------ helpers
     def bad(self, oracle, msg):
@@ -148,9 +150,9 @@ class E1:
             if env._events:
                 env.step()
         elif k == 'run':
-            if inner:
-                return
-            self._run(op[1])
+            # also from inside an event action (a nested run): the quantifier of C01 lists run calls issued from
+            # inside event actions
+            self._run(op[1], nested=inner)
         else:
             raise ValueError(op)
 
@@ -184,16 +186,19 @@ class E1:
         env = self.env
         snap = list(env._events)
         now_before = env.now
+        mark = len(self.stepped)
         self._orig_step()
         PROGRESS[0] += 1
         self.c['dispatches'] += 1
-        if env.now < now_before:
+        inner = set(self.stepped[mark:])       # events dispatched by runs nested inside this step's action
+        if env.now < now_before and not inner:
             self.bad('C01.clock', f'clock went backwards from {now_before} to {env.now}')
         after = {id(e) for e in env._events} | {id(e) for e in env._paused_events}
-        removed = [e for e in snap if id(e) not in after]
+        removed = [e for e in snap if id(e) not in after and id(e) not in inner]
         if len(removed) != 1:
             self.bad('C01.head-min', f'one step removed {len(removed)} events from the queue')
             return
+        self.stepped.append(id(removed[0]))
         x = removed[0]
         if x.cancelled:
             # a cancelled event is not live; it is dropped silently (if its action ran, _on_action said so)
@@ -222,18 +227,27 @@ class E1:
             self.c['prio_ties'] += 1
 
     # ------------------------------------------------------------------------------------ run(d)
-    def _run(self, d):
+    def _run(self, d, nested=False):
         env = self.env
         t0 = env.now
         n_log = len(self.log)
+        end = t0 + d
+        prev_max = self.max_started_end
+        self.max_started_end = float('-inf')
+        if nested:
+            self.c['nested_runs'] = self.c.get('nested_runs', 0) + 1
         env.run(d)
         self.run_count += 1
         self.c['runs'] += 1
-        end = t0 + d
-        if env.now != end:
-            self.bad('C01.run', f'run({d}) started at {t0} ended with the clock at {env.now}, expected {end}')
+        # did a run nested (at any depth) in this one end after this one's end? then this run's clock legitimately
+        # lies beyond its own end when it returns
+        went_beyond = self.max_started_end > end
+        self.max_started_end = max(prev_max, self.max_started_end, end)
+        if env.now != end and not went_beyond:
+            self.bad('C01.run', f'run({d}) started at {t0} ended with the clock at {env.now}, expected {end}'
+                     + (' (a run nested in an event action)' if nested else ''))
         for (rid, t) in self.log[n_log:]:
-            if t > end:
+            if t > end and not went_beyond:
                 self.bad('C01.run', f'run({d}) from {t0} executed event r{rid} due at {t} > {end}')
         for e in env._events:
             if not e.cancelled and e.time <= end and getattr(e.action, 'rec', None) is not None:
